@@ -254,6 +254,14 @@ func (d *driver) next(st *State) M {
 	case w < 30: // Send
 		from, dn := who()
 		to := d.user()
+		if d.rng.Intn(8) == 0 {
+			// the all-upper-case bech32 spelling of an address (often the sender's own): a
+			// different string, the same account
+			if d.rng.Intn(2) == 0 {
+				to = from
+			}
+			to = "A" + to[1:]
+		}
 		cs := []any{}
 		for i := 0; i < nlist; i++ {
 			tr, _ := d.amount(d.tradable(from, dn))
